@@ -16,8 +16,10 @@ from contracts import index as _index
 from contracts.ash import ASH, NakFrameT, frames_written, transport_open, transport_writes, upward
 from pyvc.contracts import REGISTRY, T, contract
 
-RWE = tuple(int(x) for x in ash.RESERVED_WITHOUT_ESCAPE)
 FLAG, CANCEL, SUBSTITUTE, XON, XOFF = 0x7E, 0x1A, 0x18, 0x11, 0x13
+# the reserved bytes that act on framing wherever they appear (UG101: Flag, Cancel, Substitute, XON, XOFF) -- the
+# specification's set, not a constant of the code
+RWE = (FLAG, CANCEL, SUBSTITUTE, XON, XOFF)
 
 # frame_received: what it may change (union of the handlers' proved frames)
 _fr = REGISTRY.contracts["bellows.ash.AshProtocol.frame_received"]
